@@ -5,6 +5,7 @@
     repaired code does. *)
 From Coq Require Import ZArith List String Bool Lia.
 From L21 Require Import Lef.LefDec Lef.LefData Lef.LefLex Lef.LefParse Lef.LefWrite Lef.LefSpec Lef.LefCheck.
+From L21 Require Import Gen.LefKeysGen.
 Import ListNotations.
 Local Open Scope Z_scope.
 
@@ -67,3 +68,19 @@ Lemma LefRt_dbu_mantissa_refuted :
   reads_back cfg_only_dbu_mantissa LefRt_sty_zeros LefRt_lib_dbu = false
   /\ reads_back cfg_fixed LefRt_sty_zeros LefRt_lib_dbu = true.
 Proof. split; vm_compute; reflexivity. Qed.
+
+(** Part 2: the tables of the hand-written model equal the tables regenerated from lef21/src/data.rs on every
+    run (Gen/LefKeysGen.v, tools/translate_lef_keys.py). *)
+Definition LefRt_model_enums : list (String.string * list (String.string * String.string)) := [
+  ("LefKey", map snd LefKey_table); ("LefOnOff", map snd LefOnOff_table);
+  ("LefClearanceStyle", map snd LefClearanceStyle_table); ("LefDefSource", map snd LefDefSource_table);
+  ("LefSymmetry", map snd LefSymmetry_table); ("LefOrient", map snd LefOrient_table);
+  ("LefPinUse", map snd LefPinUse_table); ("LefPinShape", map snd LefPinShape_table);
+  ("LefMacroClassName", map snd LefMacroClassName_table); ("LefPadClassType", map snd LefPadClassType_table);
+  ("LefEndCapClassType", map snd LefEndCapClassType_table); ("LefBlockClassType", map snd LefBlockClassType_table);
+  ("LefCoreClassType", map snd LefCoreClassType_table); ("LefPortClass", map snd LefPortClass_table);
+  ("LefSiteClass", map snd LefSiteClass_table); ("LefAntennaModel", map snd LefAntennaModel_table);
+  ("LefPropertyDefinitionObjectType", map snd LefPropertyDefinitionObjectType_table)
+]%string.
+Lemma LefRt_keys_tied : LefRt_model_enums = gen_lef_enums.
+Proof. vm_compute. reflexivity. Qed.
